@@ -10,17 +10,24 @@ package main
 
 import (
 	"bytes"
+	"context"
 	"encoding/json"
 	"fmt"
 	"io"
 	"math/rand"
+	"sort"
 	"time"
 
 	"github.com/go-logr/logr"
 	"github.com/pckhoi/meow"
 	apiutils "github.com/wrgl/wrgl/pkg/api/utils"
+	"github.com/wrgl/wrgl/pkg/conf"
+	"github.com/wrgl/wrgl/pkg/doctor"
 	"github.com/wrgl/wrgl/pkg/encoding/packfile"
+	"github.com/wrgl/wrgl/pkg/ingest"
 	"github.com/wrgl/wrgl/pkg/objects"
+	"github.com/wrgl/wrgl/pkg/ref"
+	"github.com/wrgl/wrgl/pkg/sorter"
 )
 
 func init() {
@@ -357,13 +364,16 @@ const c03RecvEvery = 4
 
 func runC03All(ctx *Ctx) {
 	// in addition to the case of this index (each from a random stream of its own): a table with a cell
-	// at the 16-bit length boundary, and a stored table examined after a later receipt that shares its
-	// blocks was refused
+	// at the 16-bit length boundary, a stored table examined after a later receipt that shares its
+	// blocks was refused, and the tables the doctor writes when it repairs a history of damaged ones
 	switch ctx.Idx % 8 {
 	case 3:
 		defer c03RunRefused(ctx)
 	case 7:
 		defer c03RunBoundaryCell(ctx)
+	case 1, 5:
+		// a history of damaged tables repaired by the doctor in one go
+		defer c03RunResolve(ctx)
 	}
 	if ctx.Idx > 0 && ctx.Idx%c03RecvEvery == 2 {
 		t, rs, w, comma, tags := genReceiveSpec(ctx)
@@ -383,6 +393,14 @@ func runC03All(ctx *Ctx) {
 }
 
 func corpusC03All(ctx *Ctx, op string, raw json.RawMessage) {
+	if op == "resolve-inv" {
+		var din c03DocInput
+		if err := json.Unmarshal(raw, &din); err != nil {
+			panic(err)
+		}
+		ctx.Emit("resolve-inv", &din, c03DoResolve(&din), true, "corpus", "producer="+c03DocProducer)
+		return
+	}
 	var rin c03RefusedInput
 	if op == "inv" && json.Unmarshal(raw, &rin) == nil && rin.Producer == c03RefusedProducer && rin.Spec != nil {
 		in2, res := c03DoRefused(rin.Spec, rin.Held, rin.Refusal, rin.EditAt, rin.Xfer)
@@ -738,4 +756,411 @@ func c03RunRefused(ctx *Ctx) {
 	}
 	tags = append(tags, x.tags()...)
 	ctx.Emit("inv", in, res, len(t.Rows) > 255, tags...)
+}
+
+// ---- producer: doctor resolve over a history of issues ------------------------------------------------
+//
+// `Doctor.Resolve` repairs all the issues of one ref in one go, oldest commit first, with ONE resolver
+// (one sorter) for all of them. A case is therefore a HISTORY: a chain of 1..4 commits on heads/main, each
+// holding a sound table (ingested by the real pipeline), a table that needs a re-ingest (a row stored
+// twice in a row, a recorded row count that is off, a block index that is gone or lists too few rows) or a table whose key must be
+// dropped (a key position outside the columns, a key column without a name). The damaged tables are
+// written object by object, as an older or defective version left them: any width, any key (leading
+// columns or not, composite, none), rows in key order or not, equal keys, 1 row .. several blocks.
+// Every kind of table follows every other kind over the case indices. After Diagnose + Resolve every
+// table of the new history is dumped for the oracle all producers share (Lean's tableInv + the
+// repository's own diagnosis), and compared with the model's resolver (Model/Resolver.lean).
+
+type c03DocCommit struct {
+	Columns []string   `json:"columns"` // hex
+	PK      []int      `json:"pk"`      // as the table object records it
+	Rows    [][]string `json:"rows"`    // hex; the rows of all blocks in stored order
+	// Damage: "none" | "dup-rows" | "rows-count" (the recorded count is off, within the same number of
+	// blocks: the table format derives the number of blocks from it) | "index-missing" (the index of the
+	// last block is not in the store) | "index-short" (the index of the last block lacks that block's last
+	// row) | "pk-out-of-range" | "pk-empty-name"
+	Damage string `json:"damage"`
+	// Resolution the damage calls for: "none" | "reingest" | "resetPK"
+	Resolution string `json:"resolution"`
+	// RowsCountOff: recorded row count minus rows present (damage "rows-count")
+	RowsCountOff int `json:"rowsCountOff"`
+}
+
+type c03DocInput struct {
+	Producer string          `json:"producer"`
+	Commits  []*c03DocCommit `json:"commits"` // oldest first
+}
+
+type c03DocCommitOut struct {
+	ingestResult
+	OldSum     string   `json:"oldSum"`
+	NewSum     string   `json:"newSum"`
+	DiagBefore []string `json:"diagBefore"` // what Diagnose said about this commit before the repair
+}
+
+type c03DocResult struct {
+	Commits []*c03DocCommitOut `json:"commits"`
+}
+
+const c03DocProducer = "doctor-resolve"
+
+func u32s(l []int) []uint32 {
+	o := make([]uint32, 0, len(l))
+	for _, v := range l {
+		o = append(o, uint32(v))
+	}
+	return o
+}
+
+// c03IngestRows: the real sorter + inserter on rows given as they are (no CSV in between)
+func c03IngestRows(db objects.Store, cols []string, pk []uint32, rows [][]string) ([]byte, error) {
+	s, err := sorter.NewSorter()
+	if err != nil {
+		return nil, err
+	}
+	defer s.Close()
+	s.SetColumns(cols)
+	s.PK = pk
+	for _, row := range rows {
+		if err := s.AddRow(row); err != nil {
+			return nil, err
+		}
+	}
+	return ingest.NewInserter(db, s, logr.Discard()).IngestTableFromSorter(cols, pk)
+}
+
+// c03WriteDamaged stores a table exactly as described: blocks of 255 rows in the given order, one index
+// per block (built with the key when it lies inside the columns), the table object with the recorded
+// key and row count. Nothing is sorted, de-duplicated or validated.
+func c03WriteDamaged(db objects.Store, c *c03DocCommit) ([]byte, error) {
+	cols := unhexStrs(c.Columns)
+	rows := make([][]string, len(c.Rows))
+	for i, r := range c.Rows {
+		rows[i] = unhexStrs(r)
+	}
+	idxPK := u32s(c.PK)
+	for _, p := range c.PK {
+		if p >= len(cols) {
+			idxPK = nil
+		}
+	}
+	enc := objects.NewStrListEncoder(true)
+	hash := meow.New(0)
+	tbl := &objects.Table{Columns: cols, PK: u32s(c.PK), Blocks: [][]byte{}, BlockIndices: [][]byte{}}
+	var bb []byte
+	for from := 0; from < len(rows); from += 255 {
+		to := from + 255
+		if to > len(rows) {
+			to = len(rows)
+		}
+		blk := rows[from:to]
+		buf := newBuf()
+		if _, err := objects.WriteBlockTo(enc, buf, blk); err != nil {
+			return nil, err
+		}
+		var bsum []byte
+		var err error
+		bsum, bb, err = objects.SaveBlock(db, bb, buf.Bytes())
+		if err != nil {
+			return nil, err
+		}
+		iblk := blk
+		if c.Damage == "index-short" && to == len(rows) {
+			iblk = blk[:len(blk)-1]
+		}
+		idx, err := objects.IndexBlock(enc, hash, iblk, idxPK)
+		if err != nil {
+			return nil, err
+		}
+		buf = newBuf()
+		if _, err := idx.WriteTo(buf); err != nil {
+			return nil, err
+		}
+		var isum []byte
+		isum, bb, err = objects.SaveBlockIndex(db, bb, buf.Bytes())
+		if err != nil {
+			return nil, err
+		}
+		tbl.Blocks = append(tbl.Blocks, bsum)
+		tbl.BlockIndices = append(tbl.BlockIndices, isum)
+	}
+	rc := len(rows) + c.RowsCountOff
+	if rc < 0 {
+		rc = 0
+	}
+	tbl.RowsCount = uint32(rc)
+	buf := newBuf()
+	if _, err := tbl.WriteTo(buf); err != nil {
+		return nil, err
+	}
+	return objects.SaveTable(db, buf.Bytes())
+}
+
+func c03DoResolve(in *c03DocInput) Res {
+	return Guard(func() Res {
+		if len(in.Commits) == 0 {
+			return Err("not-a-case")
+		}
+		db := NewMemStore()
+		rs, closeRS := NewRefStore()
+		defer closeRS()
+		var parent []byte
+		var head *objects.Commit
+		oldSums := make([][]byte, len(in.Commits))
+		oldCommits := make([][]byte, len(in.Commits))
+		for i, c := range in.Commits {
+			var sum []byte
+			var err error
+			if c.Damage == "none" {
+				rows := make([][]string, len(c.Rows))
+				for j, r := range c.Rows {
+					rows[j] = unhexStrs(r)
+				}
+				sum, err = c03IngestRows(db, unhexStrs(c.Columns), u32s(c.PK), rows)
+			} else {
+				sum, err = c03WriteDamaged(db, c)
+			}
+			if err != nil {
+				return Err("write-history")
+			}
+			oldSums[i] = sum
+			com, err := c03SaveCommit(db, sum, parent, i)
+			if err != nil {
+				return Err("commit")
+			}
+			oldCommits[i] = com.Sum
+			parent, head = com.Sum, com
+		}
+		if err := ref.CommitHead(rs, "main", head.Sum, head, nil); err != nil {
+			return Err("commit-head")
+		}
+		// block indices that are gone from the store (of this table only: not a case when another table of
+		// the history lists the same index)
+		for i, c := range in.Commits {
+			if c.Damage != "index-missing" {
+				continue
+			}
+			tbl, err := objects.GetTable(db, oldSums[i])
+			if err != nil || len(tbl.BlockIndices) == 0 {
+				return Err("not-a-case")
+			}
+			gone := tbl.BlockIndices[len(tbl.BlockIndices)-1]
+			for j := range in.Commits {
+				if j == i {
+					continue
+				}
+				if bytes.Equal(oldSums[j], oldSums[i]) {
+					return Err("not-a-case")
+				}
+				if other, err := objects.GetTable(db, oldSums[j]); err == nil {
+					for _, s := range other.BlockIndices {
+						if bytes.Equal(s, gone) {
+							return Err("not-a-case")
+						}
+					}
+				}
+			}
+			if err := objects.DeleteBlockIndex(db, gone); err != nil {
+				return Err("write-history")
+			}
+		}
+		d := doctor.NewDoctor(db, rs, conf.User{Name: "a", Email: "a@b.c"}, logr.Discard())
+		ch, errCh, err := d.Diagnose(context.Background(), []string{"heads/"}, nil, nil)
+		if err != nil {
+			return Err("diagnose")
+		}
+		var issues []*doctor.Issue
+		for ri := range ch {
+			issues = append(issues, ri.Issues...)
+		}
+		if e, ok := <-errCh; ok && e != nil {
+			return Err("diagnose")
+		}
+		before := make([][]string, len(in.Commits))
+		for i := range before {
+			before[i] = []string{}
+		}
+		for _, iss := range issues {
+			for i, cs := range oldCommits {
+				if bytes.Equal(cs, iss.Commit) {
+					before[i] = append(before[i], iss.Err)
+				}
+			}
+		}
+		if len(issues) > 0 {
+			if err := d.Resolve(issues); err != nil {
+				return Err("resolve")
+			}
+		}
+		// the history as it is now, oldest first
+		sum, err := ref.GetRef(rs, "heads/main")
+		if err != nil {
+			return Err("get-ref")
+		}
+		var chain []*objects.Commit
+		for sum != nil {
+			com, err := objects.GetCommit(db, sum)
+			if err != nil {
+				return Err("history-unreadable")
+			}
+			chain = append([]*objects.Commit{com}, chain...)
+			if len(com.Parents) == 0 {
+				break
+			}
+			if len(com.Parents) > 1 || len(chain) > len(in.Commits) {
+				return Err("history-shape")
+			}
+			sum = com.Parents[0]
+		}
+		if len(chain) != len(in.Commits) {
+			return Err("history-shape")
+		}
+		out := &c03DocResult{}
+		for i, com := range chain {
+			td, err := DumpTable(db, com.Table, true)
+			if err != nil {
+				return Err("dump")
+			}
+			o := &c03DocCommitOut{OldSum: hx(oldSums[i]), NewSum: hx(com.Table), DiagBefore: before[i]}
+			o.Table = td
+			o.Hashes = hashRows(td)
+			iss, err := diagnoseTable(db, com.Table)
+			if err != nil {
+				return Err("diagnose-after")
+			}
+			o.Issues = iss
+			out.Commits = append(out.Commits, o)
+		}
+		return Ok(out)
+	})
+}
+
+// genDocCommit: one commit of the history. class 0: sound, 1: needs a re-ingest, 2: needs its key dropped.
+func genDocCommit(r *rand.Rand, class int) *c03DocCommit {
+	nCols := 1 + r.Intn(4)
+	pk := genPK(r, nCols)
+	if class == 1 && len(pk) == 0 && r.Intn(3) != 0 {
+		// keyless tables are re-ingested too, keyed ones more often
+		pk = []int{r.Intn(nCols)}
+	}
+	var n int
+	switch r.Intn(8) {
+	case 0:
+		n = 1 + r.Intn(3)
+	case 1:
+		n = 255 + []int{-1, 0, 1}[r.Intn(3)]
+	case 2:
+		n = 256 + r.Intn(300)
+	default:
+		n = 2 + r.Intn(40)
+	}
+	mode := r.Intn(3)
+	if n > 300 {
+		mode = 0
+	}
+	t := GenTable(r, nCols, n, pk, mode)
+	c := &c03DocCommit{PK: append([]int{}, pk...), Damage: "none", Resolution: "none"}
+	rows := t.Rows
+	if class != 0 && r.Intn(3) != 0 {
+		// in the order of the recorded key, as a past ingest stored them (otherwise: in any order)
+		kc := pk
+		if len(kc) == 0 {
+			kc = make([]int, nCols)
+			for i := range kc {
+				kc[i] = i
+			}
+		}
+		sort.SliceStable(rows, func(a, b int) bool {
+			for _, k := range kc {
+				if rows[a][k] != rows[b][k] {
+					return rows[a][k] < rows[b][k]
+				}
+			}
+			return false
+		})
+	}
+	cols := append([]string{}, t.Columns...)
+	switch class {
+	case 1:
+		c.Resolution = "reingest"
+		c.Damage = []string{"dup-rows", "dup-rows", "rows-count", "index-missing", "index-short"}[r.Intn(5)]
+		if c.Damage == "index-short" && len(rows)%255 == 1 {
+			// the last block has one row: its index cannot lack a row and still be an index
+			c.Damage = "dup-rows"
+		}
+		switch c.Damage {
+		case "dup-rows":
+			for k := 1 + r.Intn(3); k > 0; k-- {
+				i := r.Intn(len(rows))
+				cp := append([]string{}, rows[i]...)
+				rows = append(rows[:i+1], append([][]string{cp}, rows[i+1:]...)...)
+			}
+		case "rows-count":
+			// off by 1..3 either way, the number of blocks the recorded count implies being the number present
+			nb := (len(rows) + 254) / 255
+			c.RowsCountOff = 1
+			if len(rows)%255 == 0 {
+				c.RowsCountOff = -1
+			}
+			for try := 0; try < 8; try++ {
+				off := []int{-3, -2, -1, 1, 2, 3}[r.Intn(6)]
+				if rc := len(rows) + off; rc >= 1 && (rc+254)/255 == nb {
+					c.RowsCountOff = off
+					break
+				}
+			}
+		}
+	case 2:
+		c.Resolution = "resetPK"
+		if r.Intn(2) == 0 || len(c.PK) == 0 {
+			c.Damage = "pk-out-of-range"
+			at := r.Intn(len(c.PK) + 1)
+			bad := nCols + r.Intn(5)
+			c.PK = append(c.PK[:at], append([]int{bad}, c.PK[at:]...)...)
+		} else {
+			c.Damage = "pk-empty-name"
+			cols[c.PK[r.Intn(len(c.PK))]] = ""
+		}
+	}
+	c.Columns = hxRow(cols)
+	c.Rows = hxRows(rows)
+	if c.Rows == nil {
+		c.Rows = [][]string{}
+	}
+	return c
+}
+
+// c03RunResolve: histories of 1..4 commits; which kind of table follows which rotates with the index so
+// that every ordered triple of (sound, re-ingest, key reset) comes up, at least one commit being damaged.
+func c03RunResolve(ctx *Ctx) {
+	r := c03Rand(ctx, 0x646f6374)
+	k := ctx.Idx / 4
+	classes := []int{k % 3, (k / 3) % 3, (k / 9) % 3}
+	n := 1 + r.Intn(4)
+	if n > 3 {
+		classes = append(classes, r.Intn(3))
+	}
+	classes = classes[:n]
+	damaged := false
+	for _, c := range classes {
+		damaged = damaged || c != 0
+	}
+	if !damaged {
+		classes[r.Intn(n)] = 1 + r.Intn(2)
+	}
+	in := &c03DocInput{Producer: c03DocProducer}
+	tags := []string{"producer=" + c03DocProducer, fmt.Sprintf("history=%d", n)}
+	seq := ""
+	rows := 0
+	for _, cl := range classes {
+		c := genDocCommit(r, cl)
+		in.Commits = append(in.Commits, c)
+		seq += string("SRK"[cl])
+		tags = append(tags, "damage="+c.Damage)
+		if len(c.Rows) > rows {
+			rows = len(c.Rows)
+		}
+	}
+	tags = append(tags, "resolutions="+seq)
+	ctx.Emit("resolve-inv", in, c03DoResolve(in), n > 1 || rows > 255, tags...)
 }
